@@ -82,3 +82,111 @@ Proof.
   repeat (destruct H as [<-|H]; [split; [apply cfg_ok_in; cbn; auto 12|split; [reflexivity|vm_compute; intros; try reflexivity; discriminate]]|]).
   contradiction.
 Qed.
+
+Lemma pct_bytes_one v : pct_bytes [v] = pct v.
+Proof. unfold pct_bytes. cbn [flat_map]. now rewrite app_nil_r. Qed.
+
+(** ---- requoters (constructor path): the bytes the text stands for are preserved ---- *)
+Section R.
+Variable k : qeff.
+Hypothesis Hok : qeff_ok k.
+Hypothesis Hreq : e_requote k = true.
+(** under qs an escaped '+' is never decoded to a literal '+' (which would read as a space) *)
+Hypothesis Hplus : e_qs k = true -> e_safe k 43 = true -> e_prot k 43 = true.
+(** ... and a literal '+' stays a literal '+' (it reads as a space before and after) *)
+Hypothesis Hplus_safe : e_qs k = true -> e_safe k 43 = true.
+
+Lemma tokenize_pct25 rest : tokenize (s_pct25 ++ rest) = IEsc 37 s_pct25 :: tokenize rest.
+Proof. reflexivity. Qed.
+
+Lemma tokenize_bad_escape rest :
+  (match rest with
+   | c1 :: c2 :: _ => match hexval c1, hexval c2 with Some _, Some _ => false | _, _ => true end
+   | _ => true end) = true ->
+  tokenize (37 :: rest) = ILit 37 :: tokenize rest.
+Proof.
+  intros H. cbn [tokenize]. change (37 =? 37) with true. cbn iota.
+  destruct rest as [|c1 [|c2 r]]; try reflexivity.
+  destruct (hexval c1); [destruct (hexval c2); [discriminate|reflexivity]|reflexivity].
+Qed.
+
+Lemma meaning_lit ps c rest : (c =? 37) = false ->
+  meaning_bytes ps (c :: rest) = (if ps && (c =? 43) then [32] else encode_ignore [c]) ++ meaning_bytes ps rest.
+Proof. intros H. unfold meaning_bytes. rewrite tokenize_lit by exact H. reflexivity. Qed.
+
+Theorem requoter_preserves_bytes : forall s, valid_str s ->
+  meaning_bytes (e_qs k) (qspec k s) = meaning_bytes (e_qs k) s.
+Proof.
+  induction s as [s IH] using len_ind. intros Hv. destruct s as [|c rest]; [reflexivity|].
+  inversion Hv as [|? ? Hc Hrest]; subst.
+  assert (IHrest : meaning_bytes (e_qs k) (qspec k rest) = meaning_bytes (e_qs k) rest) by (apply IH; [cbn; lia|exact Hrest]).
+  cbn [qspec]. rewrite Hreq, andb_true_r.
+  destruct (c =? 37) eqn:E37.
+  - assert (c = 37) by lia. subst c.
+    assert (Bad : forall (B : (match rest with
+                               | c1 :: c2 :: _ => match hexval c1, hexval c2 with Some _, Some _ => false | _, _ => true end
+                               | _ => true end) = true),
+                  meaning_bytes (e_qs k) (s_pct25 ++ qspec k rest) = meaning_bytes (e_qs k) (37 :: rest)).
+    { intros Bd. unfold meaning_bytes. rewrite tokenize_pct25, (tokenize_bad_escape rest Bd). cbn [flat_map].
+      assert (E : e_qs k && (37 =? 43) = false) by (rewrite andb_false_r; reflexivity). rewrite E.
+      change (encode_ignore [37]) with [37]. cbn [app]. f_equal. exact IHrest. }
+    destruct rest as [|c1 [|c2 r]]; try (apply Bad; reflexivity).
+    destruct (hexval c1) as [h1|] eqn:E1; [destruct (hexval c2) as [h2|] eqn:E2|].
+    2: { apply Bad. first [reflexivity | now rewrite E1, E2]. }
+    2: { apply Bad. first [reflexivity | now rewrite E1]. }
+    (* a valid escape of byte v *)
+    pose proof (hexval_lt _ _ E1) as L1. pose proof (hexval_lt _ _ E2) as L2. set (v := h1 * 16 + h2). assert (Hv256 : v < 256) by (unfold v; lia).
+    inversion Hrest as [|? ? ? Hr1]; subst. inversion Hr1 as [|? ? ? Hr2]; subst.
+    assert (IHr : meaning_bytes (e_qs k) (qspec k r) = meaning_bytes (e_qs k) r) by (apply IH; [cbn; lia|exact Hr2]).
+    assert (RHS : meaning_bytes (e_qs k) (37 :: c1 :: c2 :: r) = v :: meaning_bytes (e_qs k) r).
+    { unfold meaning_bytes. cbn [tokenize]. change (37 =? 37) with true. cbn iota. now rewrite E1, E2. }
+    rewrite RHS. unfold spec_escape.
+    destruct ((v <? 128) && e_prot k v) eqn:Ep.
+    + rewrite <- (pct_bytes_one v).
+      rewrite meaning_pct_bytes by (repeat constructor; exact Hv256). cbn [app]. now rewrite IHr.
+    + destruct ((v <? 128) && e_safe k v) eqn:Es.
+      * (* decoded to the literal character v *)
+        assert (Hn37 : (v =? 37) = false).
+        { destruct (v =? 37) eqn:Q; [|reflexivity]. assert (V37 : v = 37) by lia. destruct Hok as (H37 & _). rewrite V37, H37, andb_false_r in Es. discriminate. }
+        cbn [app]. rewrite meaning_lit by exact Hn37.
+        assert (Hnp : e_qs k && (v =? 43) = false).
+        { destruct (e_qs k) eqn:Eq; [|reflexivity]. destruct (v =? 43) eqn:E43; [|reflexivity].
+          assert (V43 : v = 43) by lia. rewrite V43 in Es, Ep. apply andb_true_iff in Es as [_ Es]. rewrite (Hplus eq_refl Es) in Ep. discriminate. }
+        rewrite Hnp. assert (Hs : is_sur v = false) by (unfold is_sur; lia).
+        cbn [encode_ignore flat_map]. rewrite Hs, app_nil_r. rewrite utf8_ascii by lia. cbn [app]. now rewrite IHr.
+      * rewrite <- (pct_bytes_one v).
+        rewrite meaning_pct_bytes by (repeat constructor; exact Hv256). cbn [app]. now rewrite IHr.
+  - (* an ordinary character *)
+    rewrite (meaning_lit (e_qs k) c rest E37). unfold spec_write.
+    destruct (e_qs k && (c =? 32)) eqn:Esp.
+    + assert (c = 32) by lia. subst c. assert (Eq : e_qs k = true) by (destruct (e_qs k); [reflexivity|discriminate]).
+      cbn [app]. rewrite meaning_lit by reflexivity. rewrite Eq. cbn [andb]. change (43 =? 43) with true. change (32 =? 43) with false.
+      cbn iota. change (encode_ignore [32]) with [32]. cbn [app]. f_equal. rewrite Eq in IHrest. exact IHrest.
+    + destruct ((c <? 128) && e_safe k c) eqn:Es.
+      * cbn [app]. rewrite meaning_lit by exact E37. now rewrite IHrest.
+      * destruct (is_sur c) eqn:Esur.
+        -- cbn [app]. rewrite IHrest. cbn [encode_ignore flat_map]. rewrite Esur. cbn [app].
+           destruct (e_qs k && (c =? 43)) eqn:Q; [|reflexivity].
+           assert (c = 43) by lia. subst c. discriminate.
+        -- rewrite meaning_pct_bytes by (apply utf8_bytes_lt; exact Hc). rewrite IHrest.
+           assert (Hnp : e_qs k && (c =? 43) = false).
+           { destruct (e_qs k) eqn:Eq; [|reflexivity]. destruct (c =? 43) eqn:E43; [|reflexivity].
+             assert (c = 43) by lia. subst c.
+             (* '+' is not literal here: under qs it would have to be unsafe *)
+             exfalso. rewrite (Hplus_safe eq_refl) in Es. change (43 <? 128) with true in Es. discriminate. }
+           rewrite Hnp. cbn [encode_ignore flat_map]. rewrite Esur, app_nil_r. reflexivity.
+Qed.
+
+End R.
+
+Theorem requoters_ok kq :
+  In kq [REQUOTER; PATH_REQUOTER; QUERY_REQUOTER; FRAGMENT_REQUOTER] ->
+  qeff_ok (eff_of kq) /\ e_requote (eff_of kq) = true
+  /\ (e_qs (eff_of kq) = true -> e_safe (eff_of kq) 43 = true -> e_prot (eff_of kq) 43 = true)
+  /\ (e_qs (eff_of kq) = true -> e_safe (eff_of kq) 43 = true).
+Proof.
+  intros H. cbn [In] in H.
+  repeat (destruct H as [<-|H];
+    [split; [apply cfg_ok_in; cbn; auto 12|split; [reflexivity|split; vm_compute; intros; try reflexivity; discriminate]]|]).
+  contradiction.
+Qed.
